@@ -41,6 +41,7 @@ Qed.
 (* =====================================================  deserialization: bounds  ===================================================== *)
 Section DesBounds.
   Variable c : cfg.
+  Hypothesis Hpl : plan_ok c.
   Hypothesis Hc : cap_sound c.
   Variable capB : nat.
   (* accesses in bounds, and - in the rendering that clamps the nested pointer - every pointer formed inside [buffer, buffer+size] *)
@@ -116,7 +117,7 @@ Section DesBounds.
     intros HD p buf cap off H. unfold wd_field.
     destruct t as [q|e n|e cp|u fs [x|]]; try (apply HD; exact H).
     - apply log_bind; [apply rd_uint_ok; [unfold header_bits; lia | exact H]|]. intros hN _.
-      destruct (N.of_nat _ <? hN)%N; [apply log_fail|].
+      unfold ordered; rewrite Hpl; cbn [pl_ser_impl pl_ser_vla pl_des_vla pl_des_hdr all_first]. destruct (N.of_nat _ <? hN)%N; [apply log_fail|].
       apply log_bind; [apply log_tell; cbn [forallb]; rewrite okb_bp by exact H; reflexivity|]. intros _ _.
       apply log_bind; [apply HD; lia|]. intros [v o] _. apply log_ret.
     - apply log_bind; [apply log_tell; cbn [forallb]; rewrite okb_bp by exact H; reflexivity|]. intros _ _.
@@ -145,7 +146,7 @@ Section DesBounds.
       intros [vs o] _. apply log_ret.
     - cbn [wf_ty] in Hwf. apply andb_prop in Hwf. destruct Hwf as [Hwf _].
       cbn [wd_body]. apply log_bind; [apply rd_uint_ok; [apply len_width_rng | exact H]|]. intros nN _.
-      destruct (N.of_nat (chk_cap c e cp) <? nN)%N eqn:E; [apply log_fail|].
+      unfold ordered; rewrite Hpl; cbn [pl_ser_impl pl_ser_vla pl_des_vla pl_des_hdr all_first]. destruct (N.of_nat (chk_cap c e cp) <? nN)%N eqn:E; [apply log_fail|].
       apply log_bind.
       { apply log_tell. cbn [forallb]. rewrite okb_oa; [reflexivity|].
         apply N.ltb_ge in E. pose proof (chk_cap_le_ov e cp). lia. }
@@ -195,10 +196,10 @@ Definition not_write (a : acc) : bool := negb (is_write a).
 
 (* =====================================================  serialization: refusal writes nothing  ===================================================== *)
 (* the up-front capacity test precedes everything: a serialization refused for lack of space has an empty access log *)
-Theorem too_small_no_write c t o capB :
+Theorem too_small_no_write c t o capB : plan_ok c ->
   up_front c = true -> 8 * capB < bmax t -> walk_ser_safe c t o capB = (Err ETooSmall, []).
 Proof.
-  intros Hu Hlt. unfold walk_ser_safe. rewrite Hu. cbn [andb].
+  intros Hpl Hu Hlt. unfold walk_ser_safe. unfold ordered; rewrite Hpl; cbn [pl_ser_impl pl_ser_vla pl_des_vla pl_des_hdr all_first]. rewrite Hu. cbn [andb].
   replace (8 * capB <? bmax t) with true by (symmetry; apply Nat.ltb_lt; exact Hlt). reflexivity.
 Qed.
 
@@ -274,6 +275,13 @@ Proof.
   rewrite Bool.andb_false_r. apply sstep_ret; [lia | exact Hm].
 Qed.
 
+Lemma sstep_nest c lim o1 sz al : o1 + sz <= lim -> o1 mod al = 0 -> sstep al o1 (w_nest c lim o1 sz).
+Proof.
+  intros H Hm. unfold w_nest. replace (lim <? o1) with false by (symmetry; apply Nat.ltb_ge; lia).
+  replace (lim <? o1 + sz) with false by (symmetry; apply Nat.ltb_ge; exact H). rewrite !Bool.andb_false_r. cbn [orb].
+  apply sstep_ret; [lia | exact Hm].
+Qed.
+
 Lemma guard_exact c lim off w o : fst (w_guard c lim off w) = Ok o -> o = off + w.
 Proof. unfold w_guard. destruct (guarded c && _); [discriminate|]. cbn. intros H. injection H as <-. reflexivity. Qed.
 
@@ -324,6 +332,7 @@ Qed.
 
 Section SerBounds.
   Variable c : cfg.
+  Hypothesis Hpl : plan_ok c.
   Hypothesis Hc : cap_sound c.
 
   Definition Pb (t : ty) : Prop := wf_ty t = true -> forall o lim off,
@@ -352,12 +361,12 @@ Section SerBounds.
       destruct (bmin t =? bmax t).
       + eapply sstep_bind with (E1 := off + 32); [lia | apply (ws_prim_sound c (PU 32 false)); cbn [prim_bits]; lia|].
         intros o1 Ho1 _ _. apply ws_prim_exact in Ho1. cbn [prim_bits] in Ho1. subst o1.
-        eapply sstep_bind with (E1 := off + 32 + 0) (al := 1); [lia | apply sstep_guard; [lia | apply Nat.mod_1_r]|].
+        eapply sstep_bind with (E1 := off + 32) (al := 1); [lia | apply sstep_nest; [rewrite ?Hsz; lia | apply Nat.mod_1_r]|].
         intros _ _ _ _. apply sstep_tell; [reflexivity|].
         eapply sstep_weaken; [|apply Hb; [exact Hwf | unfold t; cbn [align]; lia | apply nlim_ge; lia]]. lia.
       + eapply sstep_bind with (E1 := off + 32) (al := 1); [lia | apply sstep_guard; [lia | apply Nat.mod_1_r]|].
         intros o1 Ho1 _ _. apply guard_exact in Ho1. subst o1.
-        eapply sstep_bind with (E1 := off + 32 + 0) (al := 1); [lia | apply sstep_guard; [lia | apply Nat.mod_1_r]|].
+        eapply sstep_bind with (E1 := off + 32) (al := 1); [lia | apply sstep_nest; [rewrite ?Hsz; lia | apply Nat.mod_1_r]|].
         intros _ _ _ _. apply sstep_tell; [reflexivity|].
         eapply sstep_bind with (E1 := off + 32 + bmax t) (al := 8);
           [lia | apply Hb; [exact Hwf | unfold t; cbn [align]; lia | apply nlim_ge; lia]|].
@@ -367,7 +376,7 @@ Section SerBounds.
     - (* sealed *)
       pose proof (bmax_comp_mod8 u fs None) as Hm8. set (t := TComp u fs None) in *.
       assert (Hsz : 8 * bytes_hi (bmax t) = bmax t) by (unfold bytes_hi; lia). rewrite Hsz.
-      eapply sstep_bind with (E1 := off + 0) (al := 1); [lia | apply sstep_guard; [lia | apply Nat.mod_1_r]|].
+      eapply sstep_bind with (E1 := off) (al := 1); [lia | apply sstep_nest; [rewrite ?Hsz; lia | apply Nat.mod_1_r]|].
       intros _ _ _ _. apply sstep_tell; [reflexivity|]. apply Hb; [exact Hwf | exact Hal | apply nlim_ge; lia].
   Qed.
 
@@ -419,7 +428,7 @@ Section SerBounds.
       + destruct (bulk_prim _ _ _ Eb) as [-> Ha1]. rewrite Ha1. apply sstep_store. exact Hlim.
       + apply ws_list_sound; [apply field_of_body, IH | exact Hwf | exact Hal | exact Hlim].
     - cbn [ws_body bmax align wf_ty] in *. fold (fmax e) in *. apply andb_prop in Hwf. destruct Hwf as [Hwf _].
-      destruct (chk_cap c e cp <? o_count o) eqn:En; [apply sstep_fail; discriminate|]. apply Nat.ltb_ge in En.
+      unfold ordered; rewrite Hpl; cbn [pl_ser_impl pl_ser_vla pl_des_vla pl_des_hdr all_first]. destruct (chk_cap c e cp <? o_count o) eqn:En; [apply sstep_fail; discriminate|]. apply Nat.ltb_ge in En.
       pose proof (chk_cap_le_ov c Hc e cp) as Hov.
       assert (Hcc : chk_cap c e cp <= cp) by (unfold chk_cap; destruct (len_chk_storage c); lia).
       apply sstep_tell; [cbn [forallb bw_le]; rewrite Bool.andb_true_r; apply Nat.leb_le; lia|].
@@ -453,7 +462,7 @@ Section SerBounds.
     log_all (acc_ok capB) (walk_ser_safe c t o capB) /\ fst (walk_ser_safe c t o capB) <> Err ETooSmall.
   Proof.
     intros Hwf Ha Hcap. unfold walk_ser_safe.
-    replace (8 * capB <? bmax t) with false by (symmetry; apply Nat.ltb_ge; exact Hcap). rewrite Bool.andb_false_r.
+    unfold ordered; rewrite Hpl; cbn [pl_ser_impl pl_ser_vla pl_des_vla pl_des_hdr all_first]. replace (8 * capB <? bmax t) with false by (symmetry; apply Nat.ltb_ge; exact Hcap). rewrite Bool.andb_false_r.
     destruct (ws_body_sound t Hwf o (8 * capB) 0) as (H1 & H2 & H3); [rewrite Ha; reflexivity | lia|].
     destruct (ws_body c t o (8 * capB) 0) as [[off|e] l]; unfold bindM, ret; cbn [fst snd] in *.
     - split; [|discriminate]. unfold log_all in *. cbn [snd] in *. rewrite app_nil_r.
@@ -467,14 +476,26 @@ Section SerBounds.
   Qed.
 End SerBounds.
 
+(* the cursor never passes the capacity: the reported size fits the buffer (so W-bit cursor arithmetic cannot wrap when 8*capB < 2^W) *)
+Theorem ser_size_le c t o capB n : plan_ok c -> cap_sound c -> wf_ty t = true -> align t = 8 -> bmax t <= 8 * capB ->
+  fst (walk_ser_safe c t o capB) = Ok n -> n <= capB.
+Proof.
+  intros Hpl Hc Hwf Ha Hcap. unfold walk_ser_safe, ordered. rewrite Hpl. cbn [pl_ser_impl all_first].
+  replace (8 * capB <? bmax t) with false by (symmetry; apply Nat.ltb_ge; exact Hcap). rewrite Bool.andb_false_r.
+  destruct (ws_body_sound c Hpl Hc t Hwf o (8 * capB) 0) as (_ & _ & H3); [rewrite Ha; reflexivity | lia|].
+  destruct (ws_body c t o (8 * capB) 0) as [[off|e] l]; unfold bindM, ret; cbn [fst snd]; intros H; [|discriminate H].
+  destruct (H3 off eq_refl) as [Hle _]. assert (Hn : n = off / 8) by (injection H as H; symmetry; exact H). subst n.
+  apply Nat.div_le_upper_bound; lia.
+Qed.
+
 (* the rendering with the up-front test compiled in (always the case without the override option): in bounds for EVERY buffer size -
    too small a buffer is refused before anything is touched, any other passes the test the invariant starts from *)
-Theorem ser_in_bounds_checked c t o capB : up_front c = true -> cap_sound c -> wf_ty t = true -> align t = 8 ->
+Theorem ser_in_bounds_checked c t o capB : plan_ok c -> up_front c = true -> cap_sound c -> wf_ty t = true -> align t = 8 ->
   log_all (acc_ok capB) (walk_ser_safe c t o capB).
 Proof.
-  intros Hu Hc Hwf Ha. destruct (Nat.ltb_spec (8 * capB) (bmax t)) as [Hlt|Hge].
-  - rewrite (too_small_no_write c t o capB Hu Hlt). reflexivity.
-  - apply (ser_in_bounds c Hc t o capB Hwf Ha Hge).
+  intros Hpl Hu Hc Hwf Ha. destruct (Nat.ltb_spec (8 * capB) (bmax t)) as [Hlt|Hge].
+  - rewrite (too_small_no_write c t o capB Hpl Hu Hlt). reflexivity.
+  - apply (ser_in_bounds c Hpl Hc t o capB Hwf Ha Hge).
 Qed.
 
 (* =====================================================  deserialization: the prior contents do not matter  ===================================================== *)
@@ -487,6 +508,7 @@ Definition R {A B} (f : A -> B) (m : res (A * nat)) (w : res (B * nat)) : Prop :
 
 Section ObsEq.
   Variable c : cfg.
+  Hypothesis Hpl : plan_ok c.
   (* the rendering compares array lengths against the DSDL capacity (or the storage is not reduced) *)
   Hypothesis Hk : forall e n, chk_cap c e n = n.
   Notation WB := (Walker.wd_body ref_prims).
@@ -500,7 +522,7 @@ Section ObsEq.
     intros Hb p buf cap off. unfold wd_field, Walker.wd_field.
     destruct t as [q|e n|e cp|u fs [x|]]; try apply Hb.
     - rewrite fst_bindM. unfold rd_uint at 1. cbn [fst bind].
-      destruct (N.of_nat _ <? _)%N; [reflexivity|].
+      unfold ordered; rewrite Hpl; cbn [pl_ser_impl pl_ser_vla pl_des_vla pl_des_hdr all_first]. destruct (N.of_nat _ <? _)%N; [reflexivity|].
       rewrite fst_bindM. cbn [tell fst bind]. rewrite fst_bindM.
       specialize (Hb p buf (Nat.min cap (off + header_bits + 8 * N.to_nat (N_of_bits (get_bits ref_prims buf cap off header_bits))))
                      (off + header_bits)).
@@ -554,7 +576,7 @@ Section ObsEq.
       pose proof (wd_list_obs e (obs_field_of_body e IH) n (o_elems p) buf cap off) as H.
       destruct (fst (wd_list _ n (o_elems p) buf cap off)) as [[vs o]|er]; cbn [R bind] in *; rewrite H; reflexivity.
     - cbn [wd_body Walker.wd_body]. rewrite fst_bindM. unfold rd_uint at 1. cbn [fst bind]. rewrite Hk.
-      destruct (N.of_nat cp <? _)%N; [reflexivity|].
+      unfold ordered; rewrite Hpl; cbn [pl_ser_impl pl_ser_vla pl_des_vla pl_des_hdr all_first]. destruct (N.of_nat cp <? _)%N; [reflexivity|].
       rewrite fst_bindM. cbn [tell fst bind]. rewrite fst_bindM, arm_fst.
       set (n := N.to_nat _).
       pose proof (wd_list_obs e (obs_field_of_body e IH) n (o_elems p) buf cap (off + prefix_bits cp)) as H.
@@ -599,6 +621,7 @@ Proof. intros H e He. apply H. exact He. Qed.
 
 Section Errs.
   Variable c : cfg.
+  Hypothesis Hpl : plan_ok c.
   Let Sd := des_err_documented.
   Let Ss := ser_err_documented.
 
@@ -622,7 +645,7 @@ Section Errs.
   Lemma wd_field_errs D t : (forall p buf cap off, errs_in Sd (D t p buf cap off)) -> forall p buf cap off, errs_in Sd (wd_field c D t p buf cap off).
   Proof.
     intros H p buf cap off. unfold wd_field. destruct t as [q|e n|e cp|u fs [x|]]; try apply H.
-    - apply errs_bind; [apply errs_ok|]. intros hN. destruct (N.of_nat _ <? hN)%N; [apply errs_fail; reflexivity|].
+    - apply errs_bind; [apply errs_ok|]. intros hN. unfold ordered; rewrite Hpl; cbn [pl_ser_impl pl_ser_vla pl_des_vla pl_des_hdr all_first]. destruct (N.of_nat _ <? hN)%N; [apply errs_fail; reflexivity|].
       apply errs_bind; [apply errs_ok|]. intros _. apply errs_bind; [apply H|]. intros [v o]. apply errs_ok.
     - apply errs_bind; [apply errs_ok|]. intros _. apply errs_bind; [apply H|]. intros [v o]. apply errs_ok.
   Qed.
@@ -642,7 +665,7 @@ Section Errs.
     induction t as [q|e n IH|e cp IH|u fs ext IH] using ty_nested_ind; intros p buf cap off; cbn [wd_body].
     - apply errs_ok.
     - apply errs_bind; [apply errs_ok|]. intros _. apply errs_bind; [apply arm_errs, wd_field_errs, IH|]. intros [vs o]. apply errs_ok.
-    - apply errs_bind; [apply errs_ok|]. intros nN. destruct (N.of_nat (chk_cap c e cp) <? nN)%N; [apply errs_fail; reflexivity|].
+    - apply errs_bind; [apply errs_ok|]. intros nN. unfold ordered; rewrite Hpl; cbn [pl_ser_impl pl_ser_vla pl_des_vla pl_des_hdr all_first]. destruct (N.of_nat (chk_cap c e cp) <? nN)%N; [apply errs_fail; reflexivity|].
       apply errs_bind; [apply errs_ok|]. intros _. apply errs_bind; [apply arm_errs, wd_field_errs, IH|]. intros [vs o]. apply errs_ok.
     - assert (HF : Forall (fun f => forall p buf cap off, errs_in Sd (wd_field c (wd_body c) f p buf cap off)) fs)
         by (eapply Forall_impl; [|exact IH]; intros f Hf; apply wd_field_errs; exact Hf).
@@ -669,6 +692,8 @@ Section Errs.
   Proof. unfold w_store. destruct (guarded c); [apply w_checked_errs | apply errs_ok]. Qed.
   Lemma w_guard_errs lim off w : errs_in Ss (w_guard c lim off w).
   Proof. unfold w_guard. destruct (guarded c && _); [apply errs_fail; reflexivity | apply errs_ok]. Qed.
+  Lemma w_nest_errs lim o1 sz : errs_in Ss (w_nest c lim o1 sz).
+  Proof. unfold w_nest. destruct (_ || _); [apply errs_fail; reflexivity | apply errs_ok]. Qed.
   Lemma ws_pad_errs lim off a : errs_in Ss (ws_pad lim off a).
   Proof. unfold ws_pad. destruct (off mod a =? 0); [apply errs_ok | apply w_checked_errs]. Qed.
   Lemma ws_prim_errs p lim off : errs_in Ss (ws_prim c p lim off).
@@ -694,12 +719,12 @@ Section Errs.
   Proof.
     intros H o lim off. unfold ws_field. destruct t as [q|e n|e cp|u fs [x|]]; try apply H.
     - destruct (bmin _ =? bmax _).
-      + apply errs_bind; [apply ws_prim_errs|]. intros o1. apply errs_bind; [apply w_guard_errs|]. intros _.
+      + apply errs_bind; [apply ws_prim_errs|]. intros o1. apply errs_bind; [apply w_nest_errs|]. intros _.
         apply errs_bind; [apply errs_ok|]. intros _. apply H.
-      + apply errs_bind; [apply w_guard_errs|]. intros o1. apply errs_bind; [apply w_guard_errs|]. intros _.
+      + apply errs_bind; [apply w_guard_errs|]. intros o1. apply errs_bind; [apply w_nest_errs|]. intros _.
         apply errs_bind; [apply errs_ok|]. intros _. apply errs_bind; [apply H|]. intros o2.
         apply errs_bind; [destruct (little c); [apply w_store_errs | apply w_checked_errs]|]. intros _. apply errs_ok.
-    - apply errs_bind; [apply w_guard_errs|]. intros _. apply errs_bind; [apply errs_ok|]. intros _. apply H.
+    - apply errs_bind; [apply w_nest_errs|]. intros _. apply errs_bind; [apply errs_ok|]. intros _. apply H.
   Qed.
 
   Theorem ws_body_errs : forall t o lim off, errs_in Ss (ws_body c t o lim off).
@@ -708,7 +733,7 @@ Section Errs.
     - apply ws_prim_errs.
     - apply errs_bind; [apply errs_ok|]. intros _. destruct (bulk c e); [apply w_store_errs|].
       apply ws_list_errs. intros x off'. apply ws_field_errs, IH.
-    - destruct (chk_cap c e cp <? o_count o); [apply errs_fail; reflexivity|].
+    - unfold ordered; rewrite Hpl; cbn [pl_ser_impl pl_ser_vla pl_des_vla pl_des_hdr all_first]. destruct (chk_cap c e cp <? o_count o); [apply errs_fail; reflexivity|].
       apply errs_bind; [apply errs_ok|]. intros _. apply errs_bind; [apply ws_prim_errs|]. intros o1.
       destruct (bulk c e); [apply w_store_errs|]. apply ws_list_errs. intros x off'. apply ws_field_errs, IH.
     - assert (HF : Forall (fun f => forall o lim off, errs_in Ss (ws_field c (ws_body c) f o lim off)) fs)
@@ -724,7 +749,7 @@ Section Errs.
     (exists e, fst (walk_ser_safe c t o capB) = Err e /\ ser_err_documented e = true).
   Proof.
     assert (H : errs_in Ss (walk_ser_safe c t o capB)).
-    { unfold walk_ser_safe. destruct (up_front c && _); [apply errs_fail; reflexivity|].
+    { unfold walk_ser_safe. unfold ordered; rewrite Hpl; cbn [pl_ser_impl pl_ser_vla pl_des_vla pl_des_hdr all_first]. destruct (up_front c && _); [apply errs_fail; reflexivity|].
       apply errs_bind; [apply ws_body_errs|]. intros off. apply errs_ok. }
     destruct (fst (walk_ser_safe c t o capB)) as [n|e] eqn:E; [left; eauto | right; exists e; split; [reflexivity | apply H; exact E]].
   Qed.
@@ -750,6 +775,7 @@ Ltac two_runs H :=
 
 Section PriorIndep.
   Variable c : cfg.
+  Hypothesis Hpl : plan_ok c.
   Definition Pob2 (t : ty) : Prop := forall p1 p2 buf cap off,
     map_res (obs t) (fst (wd_body c t p1 buf cap off)) = map_res (obs t) (fst (wd_body c t p2 buf cap off)).
   Definition Pof2 (t : ty) : Prop := forall p1 p2 buf cap off,
@@ -760,7 +786,7 @@ Section PriorIndep.
     intros Hb p1 p2 buf cap off. unfold wd_field.
     destruct t as [q|e n|e cp|u fs [x|]]; try apply Hb.
     - rewrite ?fst_bindM. unfold rd_uint. cbn [fst bind].
-      destruct (N.of_nat _ <? _)%N; [reflexivity|].
+      unfold ordered; rewrite Hpl; cbn [pl_ser_impl pl_ser_vla pl_des_vla pl_des_hdr all_first]. destruct (N.of_nat _ <? _)%N; [reflexivity|].
       rewrite ?fst_bindM. cbn [tell fst bind]. rewrite ?fst_bindM.
       match goal with |- context [wd_body c ?t p1 buf ?cp ?o] => pose proof (Hb p1 p2 buf cp o) as H end.
       two_runs H.
@@ -803,7 +829,7 @@ Section PriorIndep.
       pose proof (wd_list2 e (field_of_body2 e IH) n (o_elems p1) (o_elems p2) buf cap off) as H. two_runs H.
       cbn [obs o_elems]. congruence.
     - cbn [wd_body]. rewrite ?fst_bindM. unfold rd_uint. cbn [fst bind].
-      destruct (N.of_nat _ <? _)%N; [reflexivity|].
+      unfold ordered; rewrite Hpl; cbn [pl_ser_impl pl_ser_vla pl_des_vla pl_des_hdr all_first]. destruct (N.of_nat _ <? _)%N; [reflexivity|].
       rewrite ?fst_bindM. cbn [tell fst bind]. rewrite ?fst_bindM, ?arm_fst.
       match goal with |- context [wd_list _ ?n (o_elems p1) buf cap ?o] =>
         pose proof (wd_list2 e (field_of_body2 e IH) n (o_elems p1) (o_elems p2) buf cap o) as H end.
@@ -841,6 +867,7 @@ Qed.
 
 Section SerGuarded.
   Variable c : cfg.
+  Hypothesis Hpl : plan_ok c.
   Hypothesis Hg : guarded c = true.
   Hypothesis Hs : len_chk_storage c = true.
   Variable L : nat.
@@ -855,6 +882,8 @@ Section SerGuarded.
   Proof. intros H. unfold w_store. rewrite Hg. apply checked_g. exact H. Qed.
   Lemma guard_g lim off w : log_all okg (w_guard c lim off w).
   Proof. unfold w_guard. destruct (guarded c && _); reflexivity. Qed.
+  Lemma nest_g lim o1 sz : log_all okg (w_nest c lim o1 sz).
+  Proof. unfold w_nest. destruct (_ || _); reflexivity. Qed.
   Lemma pad_g lim off a : lim <= L -> log_all okg (ws_pad lim off a).
   Proof. intros H. unfold ws_pad. destruct (off mod a =? 0); [reflexivity | apply checked_g; exact H]. Qed.
   Lemma prim_g p lim off : lim <= L -> log_all okg (ws_prim c p lim off).
@@ -885,12 +914,12 @@ Section SerGuarded.
   Proof.
     intros H o lim off Hl. unfold ws_field. rewrite Hg. destruct t as [q|e n|e cp|u fs [x|]]; try (apply H; exact Hl).
     - destruct (bmin _ =? bmax _).
-      + apply log_bind; [apply prim_g; exact Hl|]. intros o1 _. apply log_bind; [apply guard_g|]. intros _ _.
+      + apply log_bind; [apply prim_g; exact Hl|]. intros o1 _. apply log_bind; [apply nest_g|]. intros _ _.
         apply log_bind; [reflexivity|]. intros _ _. apply H. lia.
-      + apply log_bind; [apply guard_g|]. intros o1 _. apply log_bind; [apply guard_g|]. intros _ _.
+      + apply log_bind; [apply guard_g|]. intros o1 _. apply log_bind; [apply nest_g|]. intros _ _.
         apply log_bind; [reflexivity|]. intros _ _. apply log_bind; [apply H; lia|]. intros o2 _.
         apply log_bind; [destruct (little c); [apply store_g | apply checked_g]; exact Hl|]. intros _ _. reflexivity.
-    - apply log_bind; [apply guard_g|]. intros _ _. apply log_bind; [reflexivity|]. intros _ _. apply H. lia.
+    - apply log_bind; [apply nest_g|]. intros _ _. apply log_bind; [reflexivity|]. intros _ _. apply H. lia.
   Qed.
 
   Theorem body_g : forall t, Sok (ws_body c t).
@@ -900,7 +929,7 @@ Section SerGuarded.
     - apply log_bind; [apply log_tell; cbn [forallb okg bw_le]; rewrite Nat.leb_refl; reflexivity|]. intros _ _.
       destruct (bulk c e); [apply store_g; exact Hl|].
       apply (list_g (fun x lim off' => ws_field c (ws_body c) e x lim off')); [intros x lim' off' Hl'; apply field_g; [exact IH | exact Hl'] | exact Hl].
-    - destruct (chk_cap c e cp <? o_count o) eqn:En; [reflexivity|]. apply Nat.ltb_ge in En.
+    - unfold ordered; rewrite Hpl; cbn [pl_ser_impl pl_ser_vla pl_des_vla pl_des_hdr all_first]. destruct (chk_cap c e cp <? o_count o) eqn:En; [reflexivity|]. apply Nat.ltb_ge in En.
       apply log_bind.
       { apply log_tell. cbn [forallb okg bw_le]. rewrite Bool.andb_true_r. apply Nat.leb_le. unfold chk_cap in En. rewrite Hs in En. lia. }
       intros _ _. apply log_bind; [apply prim_g; exact Hl|]. intros o1 _.
@@ -915,11 +944,11 @@ Section SerGuarded.
   Qed.
 End SerGuarded.
 
-Theorem ser_in_bounds_guarded c t o capB : guarded c = true -> len_chk_storage c = true ->
+Theorem ser_in_bounds_guarded c t o capB : plan_ok c -> guarded c = true -> len_chk_storage c = true ->
   log_all (acc_ok capB) (walk_ser_safe c t o capB).
 Proof.
-  intros Hg Hs. unfold walk_ser_safe, log_all. destruct (up_front c && _); [reflexivity|].
-  apply bw_le_acc_ok. apply (log_bind (bw_le (8 * capB))); [apply body_g; [exact Hg | exact Hs | lia]|]. intros off _. reflexivity.
+  intros Hpl Hg Hs. unfold walk_ser_safe, log_all. unfold ordered; rewrite Hpl; cbn [pl_ser_impl pl_ser_vla pl_des_vla pl_des_hdr all_first]. destruct (up_front c && _); [reflexivity|].
+  apply bw_le_acc_ok. apply (log_bind (bw_le (8 * capB))); [apply body_g; [exact Hpl | exact Hg | exact Hs | lia]|]. intros off _. reflexivity.
 Qed.
 
 (* bytes_hi is the TRANSLATED bits2bytes_ceil filter (Generated/Gen_C01.v) *)
